@@ -95,7 +95,26 @@ def _long_lines():
     return out
 
 
-STRUCTURAL = CYCLES + _clashes() + _long_lines() + [".equ a = low(a)\n.dw a", ".equ a = a * 2\n.if a\n.endif", ".set s = 1\n.set s = low(s2)\n.equ s2 = s2\n",
+def _huge_counts():
+    """sizes and addresses beyond 32 bits (and just below): reservations, origins, in every segment - refused at once, never
+    truncated into something small that is then allocated or looped over"""
+    out = []
+    vals = [2 ** 32 - 1, 2 ** 32, 2 ** 32 + 1, 2 ** 32 + 16, 2 ** 32 + 65535, 2 ** 33, 2 ** 33 + 8, 2 ** 40, 2 ** 48 + 3, 2 ** 63 - 1, 2 ** 31, 2 ** 31 + 1, 3 * 2 ** 32 + 2]
+    for v in vals:
+        for seg in (".eseg", ".dseg", ".cseg"):
+            out.append("%s\n.byte %d" % (seg, v))
+            out.append("%s\n.byte 0x%x\n.db 1" % (seg, v))
+            out.append("%s\n.org %d\n.db 1" % (seg, v))
+            out.append("%s\n.org 0x%X\nl: .byte 1\n.cseg\n.dd l" % (seg, v))
+            out.append("%s\n.byte 1\n.byte %d\n.byte 1" % (seg, v))
+        out.append(".device ATmega8\n.eseg\n.byte %d" % v)
+        out.append(".equ big = %d\n.eseg\n.org big\n.db 1" % v)
+        out.append(" .db %d\n .dw %d\n .dd %d" % (v, v, v))
+        out.append(" rjmp %d\n jmp %d\n lds r16, %d" % (v, v, v))
+    return out
+
+
+STRUCTURAL = CYCLES + _clashes() + _long_lines() + _huge_counts() + [".equ a = low(a)\n.dw a", ".equ a = a * 2\n.if a\n.endif", ".set s = 1\n.set s = low(s2)\n.equ s2 = s2\n",
     ".macro a\nb @0\n.endm\n.macro b\na @0\n.endm\na 1", ".macro a\n.if 1\na\n.endif\n.endm\na", ".macro a\n.dseg\n.cseg\na\n.endm\na",
     ".equ x = y\n.equ y = x\n.dw x", ".equ x = x\n.dw x", ".equ x = x + 1\nldi r16, x", ".set s = s\n", ".macro m\nm\n.endm\nm",
     ".macro a\nb\n.endm\n.macro b\na\n.endm\na", ".macro m\n.macro n\n.endm\nm", ".macro m\n.include \"x\"\n.endm\nm", ".macro m\n.includepath \"x\"\n.endm\nm", ".includepath \"x\"\n.includepath \"/\"\n.includepath \"\"\n",
